@@ -12,6 +12,8 @@ CONFIGS = {
     ('aperture n=3 min_size=1 contraction/expansion', {'kind': 'aperture', 'n': 3, 'min_size': 1,
                                                        'ops': ['D', 'C', 'Down', 'Up', 'Adv', 'Leave', 'Join'],
                                                        'max_out': 4, 'max_down': 1, 'advs': [1, 3], 'max_notifications': 2}, 7),
+    ('aperture n=3, the wall clock steps backwards (10 s / more than an hour)',
+     {'kind': 'aperture', 'n': 3, 'min_size': 1, 'ops': ['D', 'C', 'Adv', 'Back', 'Leave'], 'max_out': 3, 'advs': [1], 'max_notifications': 1}, 6),
     ('heap n=2, requests issued while the balancer is opening, some time out before it opens',
      {'kind': 'heap', 'n': 2, 'ops': ['D', 'C', 'Gate', 'TO', 'Leave'], 'gate': True, 'notifier': True, 'max_out': 3, 'max_notifications': 1}, 7),
     ('heap n=3, members addressed by a named additional endpoint', {'kind': 'heap', 'n': 3, 'endpoint_name': 'thrift',
